@@ -185,12 +185,6 @@ word.to_ne_bytes()
 ===
 to_ne_bytes_(word)
 >>>
-//@subst
-<<<
-scalar.is_sign_positive() as QuantizedWord
-===
-bool_word_(scalar.is_sign_positive())
->>>
 //@spec
     ensures
         // C12: the stored bits are exactly the sign pattern, `false` (read back as -1) in the padding, 8 bytes per 64 components
